@@ -33,7 +33,7 @@ func main() {
 	from := fs.Int("from", 0, "")
 	scale := fs.Float64("scale", 1, "scale of run counts")
 	deadline := fs.Int64("deadline", 0, "unix ms")
-	hang := fs.Duration("hang", 120*time.Second, "per-run watchdog")
+	hang := fs.Duration("hang", 60*time.Second, "per-run watchdog")
 	budget := fs.Duration("budget", 0, "search budget")
 	profile := fs.String("profile", "", "")
 	seed := fs.Uint64("seed", 0, "")
